@@ -142,9 +142,12 @@ func (p *connPool) connect() (conn *ClientConn, err error) {
 		return nil, err
 	}
 
+	// The error paths below return a nil connection, which also sets the named result: close the connection that was
+	// actually established, otherwise it's leaked (along with its goroutines) every time the handshake or `USE` fails.
+	established := conn
 	defer func() {
-		if err != nil && conn != nil {
-			_ = conn.Close()
+		if err != nil {
+			_ = established.Close()
 		}
 	}()
 
